@@ -1,5 +1,6 @@
 (* C06: extraction of the executable model (ExtrOcamlBasic only). *)
 Require Extraction.
 Require Import ExtrOcamlBasic.
-From LibaV Require Import C06.StrDefs.
-Extraction "C06/extracted/strmodel.ml" step m_init sel oth run cat_self_orig_uaf exit_orig.
+From LibaV Require Import C06.StrDefs C06.StrAccDefs.
+Extraction "C06/extracted/strmodel.ml" step m_init sel oth run cat_self_orig_uaf exit_orig
+  str_ptr str_len str_mem str_at_ str_at str_of utf_len probe_str probe_cmp.
